@@ -7,6 +7,8 @@ python3 tools/gen_tables.py
 (cd lean && lake build)
 [ -f harness/Cargo.lock ] || cp /repo/Cargo.lock harness/Cargo.lock
 (cd harness && cargo build --release --offline)
+# the same harness against rpm-rs with its default cargo features (no bzip2): used by C09 / C17
+(cd harness && cargo build --release --offline --no-default-features --target-dir target-nobz)
 [ -f harness-default/Cargo.lock ] || cp /repo/Cargo.lock harness-default/Cargo.lock
 (cd harness-default && cargo build --release --offline)
 echo setup-ok
